@@ -412,7 +412,8 @@ class Evaluator(object):
                 f = o["fn"]
                 r = f.get("resolved")
                 key = r["key"] if r and r.get("inst_kind") == "item" else f["key"]
-                return ("fnref", key, f.get("name"))
+                s = self.subst.get(fid, {})
+                return ("fnref", key, f.get("name"), tuple(_subst_ty(a["s"], s) for a in f.get("args", []) if a.get("k") == "ty"))
             if "closure" in o:
                 return ("closure", o["closure"])
             if "int" in o:
